@@ -693,7 +693,7 @@ def routing_table(env):
     asked 30 route strings (empty, odd, unicode, very long, well-formed); compared with the statement's reading of the patterns"""
     import itertools
     import random
-    rng = random.Random(int(os.environ.get('VERIF_SEED', '1') or 1))
+    rng = random.Random(int(env.get('seed') or 1))
     counter = itertools.count(1)
 
     def fresh(op):
@@ -793,5 +793,5 @@ def hostile_requests(env):
         fails.append(dict(scenario='hostile_requests', args={}, expected=dict(unanswered=[], wrongly_accepted=[], serving_stopped_after=None, server_closed=False,
                                                                               note='every request is answered (an error status for an unknown route or an undecodable body) and the node keeps serving'), observed=got))
     return dict(name='hostile_requests', validates='the router and the typed-RPC decode path (rpc/mod.rs, rpc/codec.rs, routing/mod.rs) on %s requests from a connected peer: odd and very long route strings, json bodies of the wrong type made of multi-byte characters at every length 0..=420, truncated / huge-length / invalid-UTF-8 bincode bodies'
-                % got.get('sent'), cases=int(got.get('sent') or 0), failed=fails, ok=not fails, props=['C06'],
+                % got.get('sent'), cases=int(got.get('sent') or 0), failed=fails, ok=not fails, props=['C06', 'C16'],
                 clause='no request content can panic the node or make it stop serving: a malformed request affects only its own stream and is answered with an error')
